@@ -147,7 +147,7 @@ def _valid_after(c, removed):
         ok = True
     except MetapypeRuleError:
         ok = False
-    fresh()
+    Node.store.clear()
     Node.store.update(Node_store)
     return ok
 
